@@ -23,11 +23,17 @@ type SimVal struct {
 	// Unbonding distinguishes the two non-bonded states of x/staking: a validator
 	// that left the active set is Unbonding for the unbonding period, then Unbonded.
 	Unbonding bool
+	// Removed: the validator finished unbonding without delegations and was deleted from the staking store
+	// (Validator() answers nil, it has no power and takes part in no iteration).
+	Removed bool
 }
 
 func (s *SimStaking) find(a sdk.ValAddress) *SimVal {
 	for _, v := range s.Vals {
 		if v.Oper.Equals(a) {
+			if v.Removed {
+				return nil
+			}
 			return v
 		}
 	}
@@ -53,7 +59,7 @@ func (s *SimStaking) mk(v *SimVal) stakingtypes.Validator {
 func (s *SimStaking) bondedSorted() []*SimVal {
 	var out []*SimVal
 	for _, v := range s.Vals {
-		if v.Bonded {
+		if v.Bonded && !v.Removed {
 			out = append(out, v)
 		}
 	}
@@ -85,7 +91,7 @@ func (s *SimStaking) GetLastValidatorPower(ctx sdk.Context, operator sdk.ValAddr
 func (s *SimStaking) GetLastTotalPower(ctx sdk.Context) sdk.Int {
 	t := sdk.ZeroInt()
 	for _, v := range s.Vals {
-		if v.Bonded {
+		if v.Bonded && !v.Removed {
 			t = t.Add(sdk.NewInt(v.Power))
 		}
 	}
@@ -95,7 +101,7 @@ func (s *SimStaking) GetLastTotalPower(ctx sdk.Context) sdk.Int {
 func (s *SimStaking) TotalPower() int64 {
 	var t int64
 	for _, v := range s.Vals {
-		if v.Bonded {
+		if v.Bonded && !v.Removed {
 			t += v.Power
 		}
 	}
@@ -104,6 +110,9 @@ func (s *SimStaking) TotalPower() int64 {
 
 func (s *SimStaking) IterateValidators(ctx sdk.Context, cb func(index int64, validator stakingtypes.ValidatorI) (stop bool)) {
 	for i, v := range s.Vals {
+		if v.Removed {
+			continue
+		}
 		if cb(int64(i), s.mk(v)) {
 			return
 		}
